@@ -23,7 +23,7 @@ fn content(g: &mut SplitMix, tag: &str) -> String {
     match g.below(14) {
         0 => String::new(),
         1 => format!("  \t{tag} \n"),
-        2 => "!bad".to_string(),
+        2 => (*["!bad", "!bad-io typed", "!bad-nf typed"].iter().nth((tag.len() + tag.bytes().map(|b| b as usize).sum::<usize>()) % 3).unwrap()).to_string(),
         3 => "!bad but long enough to be hashed in the value".to_string(),
         // large content (hashed in the value string): 64 KiB .. 1 MiB
         4 => format!("@big:{}:{tag}", (64usize << 10) * (1 + g.below(16) as usize) + g.below(7) as usize),
@@ -57,7 +57,7 @@ impl Property for C03 {
             for ext in exts {
                 match g.below(8) {
                     0 | 1 | 2 => tree.put(id, ext, content(g, &format!("{id}.{ext}")).as_bytes()),
-                    3 => tree.put(id, ext, b"!bad"),
+                    3 => tree.put(id, ext, g.pick(&["!bad", "!bad-io", "!bad-nf"]).as_bytes()),
                     4 => {
                         tree.files.insert(fkey(id, ext), FileSt::Unreadable(*g.pick(&IO_KINDS)));
                     }
@@ -248,16 +248,24 @@ fn precedence_through_archives(sel: u64) {
     let mut t = FsTree::default();
     t.add_file("x", "a", b"payload of x.a, long enough to need a read".to_vec());
     t.add_file("other", "b", b"unrelated".to_vec());
-    let opts = ArcOpts { order: sel | 1, dir_members: sel % 2 == 0, dot_prefix: false, gnu: true, deflate: false };
+    let opts = ArcOpts { order: sel | 1, dir_members: sel % 2 == 0, dot_prefix: false, gnu: true, deflate: false, extra: 0 };
     let kind = [IoKind::PermissionDenied, IoKind::Other, IoKind::TimedOut][(sel % 3) as usize];
-    let fault = RFault::HardAt((sel / 3) % 3, kind);
-    fn run<S: assets_manager::source::Source + Send + Sync + 'static>(name: &str, src: S, ctl: super::c04::ReaderCtl, kind: IoKind) {
+    // one hard error while x.a is read, or a reader that hands out a few bytes per call (no error at all)
+    let short = sel % 5 == 0;
+    let fault = if short { RFault::Short(1 + (sel / 5 % 9) as usize) } else { RFault::HardAt((sel / 3) % 3, kind) };
+    fn run<S: assets_manager::source::Source + Send + Sync + 'static>(name: &str, src: S, ctl: super::c04::ReaderCtl, kind: IoKind, short: bool) {
         ctl.opened();
         let cache = AssetCache::without_hot_reloading(src);
         match cache.load::<LAB>("x") {
-            Ok(_) => {
-                detsim::check(ctl.fired() == 0, "C03/archive-load-ignored-io-error", || format!("{name}: load::<LAB>(\"x\") succeeded although reading x.a hit an injected {kind:?}"));
+            Ok(h) => {
+                detsim::check(short || ctl.fired() == 0, "C03/archive-load-ignored-io-error", || format!("{name}: load::<LAB>(\"x\") succeeded although reading x.a hit an injected {kind:?}"));
+                let got = h.read().0.bytes.clone();
+                detsim::check(got == b"payload of x.a, long enough to need a read", "C03/loader-got-other-bytes", || format!("{name} over a reader that returns short counts: the loader was handed {:?}, x.a stores \"payload of x.a, long enough to need a read\"", String::from_utf8_lossy(&got)));
+                if short {
+                    detsim::count("reach.archive_load_over_short_reads");
+                }
             }
+            Err(e) if short => detsim::fail("C03/archive-load-fails-without-fault", format!("{name} over a reader that returns short counts (no error): load failed: {}", e.reason())),
             Err(e) => {
                 detsim::check(ctl.fired() > 0, "C03/archive-load-fails-without-fault", || format!("{name}: load failed without a fault: {}", e.reason()));
                 let got = e.reason().downcast_ref::<std::io::Error>().map(|x| x.kind());
@@ -270,11 +278,11 @@ fn precedence_through_archives(sel: u64) {
     }
     let (r, ctl) = SimReader::with_fault(build_tar(&t, &opts), fault);
     if let Ok(tar) = Tar::from_reader(r) {
-        run("tar", tar, ctl, kind);
+        run("tar", tar, ctl, kind, short);
     }
     let (r, ctl) = SimReader::with_fault(build_zip(&t, &opts), fault);
     if let Ok(zip) = Zip::from_reader(r) {
-        run("zip", zip, ctl, kind);
+        run("zip", zip, ctl, kind, short);
     }
 }
 
